@@ -240,6 +240,8 @@ func DoSkip(rt *RecT, kind string) {
 		snaps.Skipf(rt, "skipped by scenario %s", rt.Name())
 	case "SkipNow":
 		snaps.SkipNow(rt)
+	case "SkipBare":
+		snaps.Skip(rt) // no reason given
 	default:
 		snaps.Skip(rt, "skipped by scenario")
 	}
